@@ -178,7 +178,14 @@ def check(prop: str, tier: str, seed: int, runs: int | None, budget_s: float | N
         path = f["reproducer"] if os.path.isabs(f["reproducer"]) else os.path.join(VERIF, f["reproducer"])
         rep = json.load(open(path))
         hs0 = rep.get("hash_seed", 0) if isinstance(rep, dict) else (rep[0].get("hash_seed", 0) if rep else 0)
-        recs = exec_case_file(prop, path, hs0, extra_env)
+        try:
+            recs = exec_case_file(prop, path, hs0, extra_env)
+        except HarnessError as e:
+            if not (isinstance(rep, dict) and (rep.get("expect") or {}).get("class") == "process_crash"):
+                raise
+            # a reproducer whose recorded failure is "the interpreter dies": the worker dying again IS the regression
+            recs = [{"viol": [{"prop": prop, "class": "process_crash", "detail": f"the interpreter died again: {str(e)[-160:]}",
+                               "key": {"class": "process_crash"}}]}]
         for r in recs:
             if "harness_error" in r:
                 raise HarnessError(f"reproducer {path}: {r['harness_error']}\n{r.get('tb','')}")
